@@ -231,6 +231,32 @@ fn sleeper(id: int) {
 			m.finals = append(m.finals, f)
 		}
 		tail()
+	case 13:
+		// tiny leaf functions spawned while a try of the parent is active; one of them throws: that is the
+		// thread's uncaught exception (a fatal interrupt of its core), never something the parent catches
+		m.fatal = true
+		m.badKinds = map[string]bool{"fatal:UncaughtThrow": true}
+		b.WriteString(`let seen = 0;
+fn leaf(level: int) { if level > 3 { throw("level out of range"); } }
+fn note(level: int) { seen = seen + level; }
+`)
+		b.WriteString("fn main() {\n    try {\n")
+		for i := 0; i < n; i++ {
+			if i == n-1 {
+				b.WriteString("        spawn leaf(9);\n")
+			} else {
+				fmt.Fprintf(&b, "        spawn note(%d);\n        spawn leaf(%d);\n", i, i%3)
+			}
+		}
+		b.WriteString("    } catch e {\n        println(\"caught by the parent\");\n    }\n    println(\"main goes on\");\n")
+		switch late {
+		case 1:
+			b.WriteString("    let c = 0;\n    while c < 300 { c = c + 1; }\n")
+		case 2:
+			b.WriteString("    time.sleep(0.03);\n")
+		}
+		b.WriteString("}\n")
+		m.prefixOK["main goes on"] = true
 	case 12:
 		// the last thing every worker writes is a print without a newline (several arguments, one write)
 		m.chunked = true
@@ -626,7 +652,7 @@ func planC17(t *testing.T, tier string, seed uint64) ([]RunSpec, error) {
 		sweepCap = 0
 	}
 	idx := 0
-	for shape := 0; shape <= 12; shape++ {
+	for shape := 0; shape <= 13; shape++ {
 		for _, n := range ns {
 			for late := 0; late < 3; late++ {
 				base := RunSpec{Property: "C17", Workload: fmt.Sprintf("c17/shape%d", shape), Params: map[string]int{"shape": shape, "n": n, "iters": 1 + (n+late)%3, "main_late": late}}
@@ -651,7 +677,7 @@ func planC17(t *testing.T, tier string, seed uint64) ([]RunSpec, error) {
 						s.Params["wait_delay_ms"] = []int{1, 5, 40}[(k/6)%3]
 					}
 					s.Sim = swarm(seed, idx)
-					if k%5 == 3 && shape != 7 && shape != 3 {
+					if k%5 == 3 && shape != 7 && shape != 3 && shape != 13 {
 						// (not the handshake shape, whose cores spin on each other's writes, nor the shape with
 						// endless loopers next to the failing worker)
 						s.Sim = withPCT(s.Sim, seed, idx)
